@@ -19,7 +19,7 @@ BOUNDS = (
     "- 1)), n = 1.5 ('sersic'), r the elliptical radius; eps in {0.1,0.3,0.6} (thorough also 0.05, 0.8), pa on the "
     "15-degree lattice in [0,180], centre off-integer drawn within +-3 px of the frame centre; initial geometry "
     "perturbed within 10 % (centre <= 1 px = 10 % of sma0 = 10, eps x(1+-0.1), pa +-0.1 rad); minsma 3 (one case 0), "
-    "maxsma 30..36, step 0.1 (thorough also linear step 2 and integrmode mean/median); quick: 8 free fits + 4 "
+    "maxsma 30..36, step 0.1 (thorough also linear step 2 and integrmode mean/median); quick: 8 free fits + 2 free fits on 70x140 / 140x70 frames (centre at x0 ~ 101 > ny resp. y0 ~ 101 > nx, so the fitted ellipses reach beyond min(shape) along the long axis) + 4 "
     "fix_* fits, thorough: 36 + 10.  Well-sampled isophote: stop_code 0, sma >= 5, sma (1 - eps) >= 4, ellipse at "
     "least 3 px inside the frame.  Tolerances on those: centre 3 sigma + 0.03 px (0.06 for the sector integration modes), eps 3 sigma + 0.01, pa (mod pi) "
     "3 sigma + 0.02 rad, intensity 3 sigma + 1 % (bilinear sampling bias of the curved profile; 3 % for eps = 0.8 where the profile across the minor axis is only 2.8 px wide; x3 for the sector-averaging modes mean/median); all three fix_* flags together are excluded (documented: 'Everything is fixed. Fit not possible.' -> empty list); fixed parameters "
@@ -248,7 +248,13 @@ def eval_fit(case):
                 if ins.any():
                     rel = np.abs(model / img - 1.0)[ins]
                     info['model_maxrel'] = float(rel.max())
-                    if not rel.max() <= 0.02:
+                    empty = float(np.mean(model[ins] == 0.0))
+                    if empty > 0.01:
+                        fail('build_ellipse_model/fitted-region-not-covered',
+                             f'{100 * empty:.0f} % of the pixels inside the fitted region (elliptical radius '
+                             f'[{rlo:.1f},{rhi:.1f}]) got no model value on a {shape[0]}x{shape[1]} (ny x nx) frame, '
+                             f'centre ({x0:.1f},{y0:.1f}): in-frame test with swapped axes / dropped isophotes?')
+                    elif not rel.max() <= 0.02:
                         jump = float(np.abs(np.diff(ps[nz])).max()) if nz.sum() > 1 else 0.0
                         if jump > math.pi / 2:
                             fail('build_ellipse_model/pa-wrap-interpolation',
@@ -298,6 +304,15 @@ def _fit_cases(ctx):
         case = {'kind': 'fit', 'shape': shape, 'x0': x0, 'y0': y0, 'eps': eps, 'pa': pa, 'law': law,
                 'init': init, 'opts': opts, 'model': opts.get('integrmode', 'bilinear') == 'bilinear'}
         out.append(case)
+    # strongly non-square frames, wide and tall, centre towards the far end of the long axis (x0 > ny resp.
+    # y0 > nx): the fitted ellipses extend beyond min(shape) along the long axis
+    for shape, cx, cy, padeg in ([70, 140], 101.0, 35.0, 20), ([140, 70], 35.0, 101.0, 110):
+        x0, y0 = cx + float(rng.uniform(-2, 2)), cy + float(rng.uniform(-1, 1))
+        pa = math.radians(padeg)
+        init = [x0 + float(rng.uniform(-0.7, 0.7)), y0 + float(rng.uniform(-0.7, 0.7)),
+                0.3 * (1 + float(rng.uniform(-0.1, 0.1))), pa + float(rng.uniform(-0.1, 0.1)), 10.0]
+        out.append({'kind': 'fit', 'shape': shape, 'x0': x0, 'y0': y0, 'eps': 0.3, 'pa': pa, 'law': 'gauss',
+                    'init': init, 'opts': {'minsma': 3.0, 'maxsma': 30.0, 'step': 0.1}, 'model': True})
     # fix_* fits
     fixes = [{'fix_center': True}, {'fix_pa': True}, {'fix_eps': True}]
     if ctx.thorough:
